@@ -272,6 +272,39 @@ def check_formula_verified(run, ix):
     else:
         run.fail(F('Q-R11', 'identify', evals[0], 'the formula is evaluated with Python int literals: (1/3) is a '
                    'float, so correct formulas with fractional powers are judged at 53 bits'))
+    # the namespace the formula is evaluated in holds the context's functions whenever eval runs.  (A NameError of the
+    # evaluation is taken to mean "a constant given under a name that cannot be evaluated" and ACCEPTS the formula
+    # unchecked: if the namespace lacks `mpf`, `sqrt`, `log`, every formula raises NameError and nothing is verified.)
+    ns = norm(evals[0].value.args[1]) if len(evals[0].value.args) > 1 else None
+    fills = [x for x in ast.walk(add) if isinstance(x, ast.For) and isinstance(x.iter, ast.Call) and
+             norm(x.iter.func) == 'dir' and ns is not None and
+             any(isinstance(c, ast.Call) and norm(c.func) in ('%s.setdefault' % ns,) for c in ast.walk(x)) and
+             x.lineno < evals[0].lineno]
+    outer = [x for x in _walk_own(fn) if isinstance(x, ast.Assign) and ns is not None and norm(x.targets[0]) == ns and
+             'dir(ctx)' in norm(x.value, 200)]
+    fill_ok = False
+    why_fill = 'the evaluation namespace is never filled with the context\'s names'
+    if outer:
+        fill_ok = True
+    for fl in fills:
+        par = fl._parent
+        if not isinstance(par, ast.If) or fl not in par.body:
+            fill_ok = True
+            continue
+        t = par.test
+        if isinstance(t, ast.Compare) and len(t.ops) == 1 and isinstance(t.ops[0], ast.NotIn) and \
+                isinstance(t.left, ast.Constant) and isinstance(t.left.value, str) and \
+                norm(t.comparators[0]) == ns and t.left.value in norm(evals[0].value.args[0], 200):
+            fill_ok = True          # guarded by the absence of the very name the rewriting inserts (mpf)
+        else:
+            why_fill = 'the namespace is filled only under `%s`, which is false when the caller\'s dict of constants ' \
+                       'has already put names into it: eval then raises NameError for mpf / sqrt / log and the ' \
+                       'formula is accepted unchecked' % norm(t, 60)
+    if fill_ok:
+        run.ok('Q-R11', 'the evaluation namespace holds the context\'s functions whenever a formula is evaluated')
+    else:
+        run.fail(F('Q-R11', 'identify', fills[0]._parent if fills and isinstance(fills[0]._parent, ast.If) else evals[0],
+                   why_fill))
     # return solutions[0] only after a successful add
     for r in _walk_own(fn):
         if isinstance(r, ast.Return) and r.value is not None and norm(r.value) == 'solutions[0]':
@@ -768,7 +801,7 @@ def run(run, ix, tier):
     check_norm_exit(run, ix)
     check_self_delegation(run, ix)
     run.rule('Q-R10', floor=2)
-    run.rule('Q-R11', floor=4)
+    run.rule('Q-R11', floor=5)
     run.rule('Q-R12', floor=2)
     run.rule('Q-R13', floor=3)
     check_scaling(run, ix)
